@@ -202,6 +202,11 @@ func (c *v15Conn) collect(sortStarts bool) {
 	if c.st.sc != nil {
 		if wb, ok := c.st.sc.VerifCounters(); ok {
 			c.obs = append(c.obs, fmt.Sprintf("wb:%d:%d:%d", wb.CurHandlers, wb.Unstarted, wb.CurClientStreams))
+			if wb.InGoAway && wb.GoAwayCode != 0 {
+				// a connection error after a graceful GOAWAY is not announced by a second GOAWAY:
+				// the server stops processing frames and closes after goAwayTimeout
+				c.dead = true
+			}
 			if wb.CurHandlers > wb.AdvMaxStreams {
 				c.o.Fail("", fmt.Sprintf("curHandlers=%d exceeds advMaxStreams=%d", wb.CurHandlers, wb.AdvMaxStreams))
 			}
@@ -777,9 +782,14 @@ func v15Exec(t *testing.T, ops []string, o *vu.Out) {
 		}
 		if f[0] == "reset" {
 			adv, e1 := strconv.Atoi(f[min(1, len(f)-1)])
-			if len(f) != 3 || e1 != nil || adv < 1 || adv > 1000 || (f[2] != "0" && f[2] != "1") || c != nil {
+			if len(f) != 3 || e1 != nil || adv < 1 || adv > 1000 || (f[2] != "0" && f[2] != "1") {
 				o.Op(op, "bad-op")
 				continue
+			}
+			if c != nil { // a second connection in the same case: the first one is torn down
+				c.releaseAll()
+				c.st.Close()
+				synctest.Wait()
 			}
 			c = v15NewConn(t, o, adv, f[2] == "1")
 			o.Stat("op:reset")
